@@ -94,6 +94,7 @@ class Trace:
         epoch = 0
         snapshots = {}         # (epoch, tick, client) -> {entity: comps}
         last_view = {}         # client -> {entity: comps}
+        prev_view = {}         # client -> the view of the tick before
         session = {}           # client -> dict(ut, last={entity: tick}, extras_at_start)
         tick_now = 0
         auth_tick_pending = set()
@@ -199,6 +200,7 @@ class Trace:
                 policy_default = cfg.get("policy", "all") != "white"
                 connected, authorized = {}, set()
                 session, last_view, snapshots, tickrecv = {}, {}, {}, {}
+                prev_view = {}
                 epoch = 0
             elif t[0] == "connect":
                 # mirrors the harness: ignored when the slot is busy
@@ -228,6 +230,7 @@ class Trace:
                 auth_tick_pending.discard(c)
                 session.pop(c, None)
                 last_view.pop(c, None)
+                prev_view.pop(c, None)
                 for k_ in [k_ for k_ in maps if k_[0] == c]:
                     del maps[k_]          # the server forgets pre-spawn mappings with the connection
                 for k_ in [k_ for k_ in spec_vis if k_[0] == c]:
@@ -326,6 +329,10 @@ class Trace:
                         c = int(f[1])
                         v = parse_ents(f[2])
                         snapshots[(epoch, tick_now, c)] = v
+                        if c in last_view:
+                            prev_view[c] = last_view[c]
+                        else:
+                            prev_view.pop(c, None)
                         last_view[c] = v
                         # the visibility the server applies must be the most recent setting of every live entity
                         if cfg.get("policy", "all") != "all":
@@ -408,6 +415,13 @@ class Trace:
                             for k, v in comps.items():
                                 if e in view and view[e].get(k) != v:
                                     self.add("C02", i, "message carries a value that is not the server's current value: entity %d kind %d %s" % (e, k, l))
+                        if f[0] == "upd" and c in prev_view and cfg.get("policy", "all") != "all":
+                            # an entity that became visible to this client since the previous tick must arrive whole
+                            for e_ in sorted(set(view) - set(prev_view[c])):
+                                if e_ not in body or set(body[e_]) != set(view[e_]):
+                                    why = ("entity %d became visible to client %d at this tick but the message does not carry the whole entity "
+                                           "(sent %r, the entity has %r): %s" % (e_, c, sorted(body.get(e_, {})), sorted(view[e_]), l))
+                                    self.add("C08", i, why)
                         if f[0] == "upd":
                             des = kv_field(l, "des")
                             for e_ in ([] if des in (None, "-") else [int(x) for x in des.split(";")]):
@@ -525,6 +539,10 @@ class Trace:
                             ut_c = int(kv_field(cl_[0], "ut"))
                             for idx_ in l.split()[2].split(","):
                                 req = mut_required.get((sess_id.get(c), c, int(idx_)))
+                                if req is None and c in connected and not quick_session.get(c):
+                                    for p_ in ("C09", "C11"):
+                                        self.add(p_, i, "client %d acknowledged mutate message %s, which the server has not sent to it in this session "
+                                                        "(a message buffered during an earlier session was processed)" % (c, idx_))
                                 if req is not None and 0 < (req - ut_c) % 2**32 < 2**31:
                                     for p_ in ("C11", "C02"):
                                         self.add(p_, i, "client %d acknowledged mutate message %s, which requires update tick %d, while its own update tick is %d: "
